@@ -333,6 +333,34 @@ func shiftOfPair(fa *FA, v ssa.Value, depth int) (Lin, bool) {
 }
 
 func reportPrefix(w *World, r *Report, fn *ssa.Function) {
+	// R-WIDTH32: the index is a 32-bit quantity; every bit count taken of it (the highest differing bit of index-W and
+	// index, the rank of the fixed prefix bits) looks at all 32 bits
+	r.Rule("R-WIDTH32", "every math/bits count in IndexToPath (LeadingZeros of the xor that finds the common prefix, OnesCount of the fixed bits) is taken at a width of at least 32 bits: the index of a tree of height >= 8 / >= 16 has bits above a narrower window - a borrow that crosses bit 8, a fixed prefix bit at position 16 or higher - and the narrower count silently ignores them")
+	{
+		bad := ""
+		ncnt := 0
+		eachInstr(fn, func(ins ssa.Instruction) {
+			call, ok := ins.(*ssa.Call)
+			if !ok {
+				return
+			}
+			nm := calleeName(call.Common())
+			if !strings.HasPrefix(nm, "math/bits.") {
+				return
+			}
+			ncnt++
+			for _, suf := range []string{"8", "16"} {
+				if strings.HasSuffix(nm, suf) && !strings.HasSuffix(nm, "64") {
+					if len(call.Common().Args) == 1 {
+						if cv, isCv := call.Common().Args[0].(*ssa.Convert); isCv && intWidth(cv.X.Type()) > intWidth(cv.Type()) {
+							bad = fmt.Sprintf("%s at %s looks at the low %s bits of a %d-bit quantity derived from the index", nm, w.InstrPos(ins), suf, intWidth(cv.X.Type()))
+						}
+					}
+				}
+			}
+		})
+		r.Check(bad == "", "R-WIDTH32", w.FuncName(fn), w.Pos(fn.Pos()), bad, fmt.Sprintf("%d math/bits counts, none on a value narrowed below 32 bits", ncnt))
+	}
 	r.Rule("R-PREFIX", "the common-prefix shortcut of IndexToPath, when present, is consistent with itself: with the level mask 0x0100000001<<h, the fixed-bits mask (pair<<hi) - (pair<<d) and the mask after the shortcut pair<<(h-F), hi = h+1 and h-F = d-1 (the descent continues with the level just below the fixed bits, none skipped, none done twice); the remaining index is corrected by exactly -F besides its masked and popcount terms; and on every path d >= Len32((index-W) ^ index) with W >= h (the bits above d are common to index-W and index, hence to 2*path). A d that is too small on some path (a constant for a 'common case') fixes bits that are not common")
 	fa := w.FA(fn)
 	if len(fn.Params) < 2 {
